@@ -1176,10 +1176,18 @@ class Evaluator:
         """Evaluate an expression that may be a call to an inlinable function
         with several outcomes.  Returns [(state, value, exit|None)]."""
         if isinstance(node, ast.Call):
+            node = self._departial(node, st)
             target = self._resolve_callee(node, st)
             if target is not None:
                 fn, cls_name, bound_self, kind = target
                 return self._inline(node, fn, cls_name, bound_self, st)
+        if isinstance(node, ast.Attribute) and isinstance(node.value, ast.Name) and st.env.get(node.value.id) == SELF and self.cls \
+                and self.depth < self.max_depth and (SELF, node.attr) not in st.fields:
+            # self.NAME where NAME is a @property: a parameterless method call (its outcomes fork like any inlined call)
+            r = self.repo.find_method(self.cls, node.attr)
+            if r is not None and any(norm(d) == "property" for d in r[1].decorator_list):
+                call = ast.copy_location(ast.Call(func=node, args=[], keywords=[]), node)
+                return self._inline(call, r[1], self.cls, SELF, st)
         if isinstance(node, ast.IfExp) and self.fork_ifexp:
             # a conditional expression whose value is stored: fork like an if statement
             res = []
@@ -1238,6 +1246,31 @@ class Evaluator:
             else:
                 res.append((o.state, o.value(), None))
         return res
+
+    def _departial(self, node: ast.Call, st: State) -> ast.Call:
+        """`p = functools.partial(self.m, a, k=b)` ... `p(x)` is the call `self.m(a, x, k=b)`: the stored arguments are bound to
+        fresh names of the frame and the call is rewritten, so that everything known about method calls applies."""
+        f = node.func
+        b = st.env.get(f.id) if isinstance(f, ast.Name) else None
+        if not (isinstance(b, tuple) and len(b) == 4 and b[0] == "partial"):
+            return node
+        target, pargs, pkws = b[1], b[2], b[3]
+        self_name = next((k for k, v in st.env.items() if v == SELF and not k.startswith("__")), None)
+        if not (target[0] == "attr" and target[1] == SELF and self_name):
+            return node
+        names = []
+        for i, a in enumerate(pargs):
+            nm = f"__partial_{f.id}_{i}"
+            st.env[nm] = a
+            names.append(ast.Name(id=nm, ctx=ast.Load()))
+        kws = []
+        for k, v in pkws:
+            nm = f"__partial_{f.id}_{k}"
+            st.env[nm] = v
+            kws.append(ast.keyword(arg=k, value=ast.Name(id=nm, ctx=ast.Load())))
+        call = ast.Call(func=ast.Attribute(value=ast.Name(id=self_name, ctx=ast.Load()), attr=target[2], ctx=ast.Load()),
+                        args=names + list(node.args), keywords=kws + list(node.keywords))
+        return ast.fix_missing_locations(ast.copy_location(call, node))
 
     def _resolve_callee(self, node: ast.Call, st: State):
         """(fn, class, bound self, kind) if the call is inlinable."""
@@ -1545,6 +1578,7 @@ class Evaluator:
         pre = st.env.get("__pre__%d" % id(node))
         if pre is not None:
             return pre
+        node = self._departial(node, st)
         f = node.func
         # inlinable with a single outcome, in expression position
         target = self._resolve_callee(node, st)
@@ -1614,6 +1648,8 @@ class Evaluator:
             return st.alloc({"kind": "list", "items": [], "sio": True})
         if name == "getattr" and len(args) >= 2 and is_const(args[1]):
             return self.get_attr(args[0], args[1][1], st)
+        if name in ("functools.partial", "partial") and args and args[0][0] == "attr" and args[0][1] == SELF:
+            return ("partial", args[0], tuple(args[1:]), tuple(sorted(kws.items())))
         if name == "vars" and len(args) == 1:
             return ("attr", args[0], "__dict__")
         if name == "len" and len(args) == 1:
